@@ -302,12 +302,18 @@ MUTANTS = [
 MUTANTS += [
     M("Flow.__init__ replaces a given transform", _B, "if data_transform is None:\n            data_transform = IdentityTransform(self.xp)", "if data_transform is not None:\n            data_transform = IdentityTransform(self.xp)", "C03.attach"),
     M("init_flow always builds the default back-end", _A, "backend=self.flow_backend, flow_matching=self.flow_matching", "flow_matching=self.flow_matching", "C03.attach", within="Aspire.init_flow"),
+    M("density evaluation compiled once over the constructor's flow (jit bakes the closed-over weights into the trace)", _JF,
+      "**kwargs,\n        )\n\n    def fit", "**kwargs,\n        )\n        self._log_prob_fn = jax.jit(lambda x: self._flow.log_prob(x))\n\n    def fit", "C03.stale"),
+    M("density evaluation memoised on the argument only", _JF,
+      "**kwargs,\n        )\n\n    def fit", "**kwargs,\n        )\n        self._log_prob_fn = functools.lru_cache(maxsize=8)(self._flow.log_prob)\n\n    def fit", "C03.stale"),
     M("init_flow drops the flow dtype", _A, "data_transform=data_transform,\n            dtype=self.dtype,", "data_transform=data_transform,", "C03.attach"),
 ]
 NEUTRALS = [
     M("zuko log_prob operand order", _TF, "self._flow().log_prob(x_prime) + log_abs_det_jacobian", "log_abs_det_jacobian + self._flow().log_prob(x_prime)"),
     M("jax sample_and_log_prob via temporary", _JF, "return xp.asarray(x), xp.asarray(log_prob - log_abs_det_jacobian)", "log_q = log_prob - log_abs_det_jacobian\n        return xp.asarray(x), xp.asarray(log_q)"),
     M("zuko sample unpacks both", _TF, "x = self.inverse_rescale(x_prime)[0]\n        return xp.asarray(x)", "x, _ = self.inverse_rescale(x_prime)\n        return xp.asarray(x)"),
+    M("compiled density takes the flow as an argument (nothing closed over)", _JF,
+      "**kwargs,\n        )\n\n    def fit", "**kwargs,\n        )\n        self._log_prob_fn = jax.jit(lambda flow, x: flow.log_prob(x))\n\n    def fit"),
     M("init_flow keyword order", _A, "eps=self.eps,\n            dtype=self.dtype,\n        )", "dtype=self.dtype,\n            eps=self.eps,\n        )"),
 ]
 
